@@ -27,9 +27,17 @@ class Hang(Exception):
 
 
 class Driver:
-    def __init__(self, flavour, cwd=None):
+    def __init__(self, flavour, cwd=None, tmpfs=None):
         self.flavour = flavour
-        self.p = subprocess.Popen([driver_path(flavour)], stdin=subprocess.PIPE,
+        cmd = [driver_path(flavour)]
+        if tmpfs:
+            # the co-process gets a mount namespace of its own in which `dir` is a tmpfs of
+            # `kib` KiB: a file system that can be filled FOR REAL (ENOSPC from the kernel, SIGBUS
+            # on a page of a sparse mapping), not only by failing single system calls
+            d_, kib = tmpfs
+            cmd = ["unshare", "-Urm", "sh", "-c",
+                   "mount -t tmpfs -o size=%dk tmpfs '%s' && exec '%s'" % (kib, d_, driver_path(flavour))]
+        self.p = subprocess.Popen(cmd, stdin=subprocess.PIPE,
                                   stdout=subprocess.PIPE, cwd=cwd, bufsize=0)
         self.buf = b""
 
@@ -279,7 +287,7 @@ def _nest_of(v):
 
 class Session:
     def __init__(self, workdir, universe=None, reflink=False, exact=False, total=False, layout=False,
-                 relcache=False):
+                 relcache=False, fullfs=0):
         self.dir = workdir
         os.makedirs(workdir, exist_ok=True)
         self.u = universe or Universe()
@@ -302,6 +310,7 @@ class Session:
         self.prev_inv = None
         self.layout_quiet = False
         self.relcache = relcache   # the cache directory is passed as a RELATIVE path
+        self.fullfs = fullfs       # KiB of a private tmpfs holding the cache (0 = the ordinary file system)
         self.new_cache()
 
     # ------------------------------------------------------------ lifecycle
@@ -331,7 +340,7 @@ class Session:
     def driver(self, flavour):
         d = self.drivers.get(flavour)
         if d is None or d.p.poll() is not None:
-            d = Driver(flavour)
+            d = Driver(flavour, tmpfs=(os.path.dirname(self.root), self.fullfs) if getattr(self, "fullfs", 0) else None)
             self.drivers[flavour] = d
         return d
 
@@ -517,6 +526,10 @@ class Session:
             # ... or by other spellings of the same directory, a different one for every call:
             # trailing slash, doubled slashes and `.` components, through a symbolic link to it
             sp = self._sp_rng.choice(["rel", "rel", "slash", "dots", "symlink"])
+            if req.pop("_force_rel", False):
+                sp = "rel"
+            elif isinstance(req.get("target"), str) and not os.path.isabs(req["target"]):
+                sp = "slash"            # (a relative link target was computed for the current directory)
             if sp == "rel":
                 if self.cwd.get(fl) != base:
                     r = self.driver(fl).call({"op": "chdir", "dir": base})
@@ -533,6 +546,7 @@ class Session:
                 if not os.path.islink(lk):
                     os.symlink(self.root, lk)
                 req["cache"] = lk
+        req.pop("_force_rel", None)
         req.setdefault("cache", self.root)
         self.ncalls += 1
         try:
@@ -567,6 +581,10 @@ class Session:
             c["raw"] = o["raw"].hex()
         if o.get("sri"):
             c["sri"] = self.u.sri_conc(o["sri"])
+        if o.get("decoy"):
+            # earlier calls of the same setters with other values (only setters the real options
+            # call again: the last call decides)
+            c["decoy"] = self._opts_conc({k: v for k, v in o["decoy"].items() if k in o and k != "decoy"})
         return c
 
     def _opts_abs(self, o):
@@ -589,6 +607,10 @@ class Session:
         fn = getattr(self, "_do_" + op)
         before = self.prev
         sop, resp, absres = fn(st, lane)
+        if sop is None:
+            # a call whose outcome the caller cannot know (a cancelled write, and the writes that
+            # follow it on the same handle): nothing is recorded now; the commit accounts for it
+            return absres or {"ok": True, "v": "unknown"}
         if resp.get("hang"):
             absres = {"ok": False, "e": "HANG"}
         elif absres is None:
@@ -751,6 +773,9 @@ class Session:
         req = dict(req)
         req["h"] = dh
         lane = info["lane"]
+        # (a call on a handle names no cache: it must not re-spell the path, let alone change the
+        # working directory, on the way)
+        req["cache"] = self.root
         return self.raw_call(lane, req)
 
     def _do_open_writer(self, st, lane):
@@ -769,10 +794,13 @@ class Session:
         if "key" in st:
             req["key"] = self.u.keys[st["key"]]
             sop["key"] = st["key"]
+        if st.get("force_rel"):
+            req["_force_rel"] = True
         resp = self.raw_call(lane, req)
         if resp.get("ok"):
             self._new_handle(lane, resp, {"lane": lane, "kind": "writer", "key": st.get("key"),
-                                          "fed": b"", "algo": algo})
+                                          "fed": b"", "algo": algo,
+                                          "rel_open": bool(st.get("force_rel") and self.relcache)})
             return sop, resp, {"ok": True, "v": "handle"}
         return sop, resp, None
 
@@ -789,6 +817,22 @@ class Session:
     def _do_w_write(self, st, lane):
         h = st["h"]
         data, spec = self._chunk_bytes(st)
+        info0 = self.handles[h][2]
+        if (st.get("cancel") and not LANES[lane][1] and len(data) > 0) or info0.get("uncertain"):
+            # the write future is polled once and dropped (select!/timeout style): the caller
+            # learns nothing about the chunk, and what later writes on this handle report is no
+            # longer tied to their own bytes.  The properties say nothing about WHICH bytes such
+            # a writer holds - only that what it commits is consistent (address = digest of the
+            # stored bytes, entry = that address and length).  So nothing is recorded for these
+            # calls; w_commit reconstructs the byte count from what was stored.
+            if st.get("cancel") and not info0.get("uncertain"):
+                resp = self._hcall(h, {"op": "w_write_cancel", "data": spec})
+                info0["uncertain"] = True
+            else:
+                resp = self._hcall(h, {"op": "w_write", "data": spec, "all": st.get("all", True)})
+            if not resp.get("ok") and resp.get("err", {}).get("variant") == "Driver":
+                raise ToolError("driver error: %r" % resp)
+            return None, resp, {"ok": bool(resp.get("ok")), "v": "unknown"}
         if st.get("copy_step"):
             # the chunk arrives through io::copy from a reader that delivers copy_step bytes per read
             resp = self._hcall(h, {"op": "w_copy_from", "data": spec, "step": st["copy_step"]})
@@ -810,6 +854,7 @@ class Session:
             n = int(resp["val"])
             info["fed"] += data[:n]
             sop["len"] = n if not whole else len(data)
+            info["n_rec"] = info.get("n_rec", 0) + sop["len"]
             return sop, resp, {"ok": True, "v": n}
         return sop, resp, None
 
@@ -826,14 +871,48 @@ class Session:
     def _do_w_commit(self, st, lane):
         h = st["h"]
         fl, dh, info = self.handles[h]
+        resp = None
+        if info.get("uncertain"):
+            # commit first, then read back what was stored under the address it returned: THOSE
+            # are the bytes this writer held (TLC checks that the address is their digest, that
+            # the entry carries it and their length); the unrecorded writes are summed up in one
+            # synthetic w_write event in front of the commit
+            resp = self._hcall(h, {"op": "w_commit"})
+            if resp.get("ok"):
+                try:
+                    a_, hx_ = R.parse_sri(resp["val"])[0]
+                    with open(os.path.join(self.root, R.content_relpath(a_, hx_)), "rb") as f:
+                        info["fed"] = f.read()
+                except (OSError, IndexError, ValueError):
+                    pass
+            delta = len(info["fed"]) - info.get("n_rec", 0)
+            if delta >= 0:
+                self.trace.append({"ev": "call", "op": {"op": "w_write", "h": h, "len": delta, "all": True, "lane": lane},
+                                   "res": {"ok": True, "v": delta}})
+                ev = {"ev": "state"}
+                ev.update({k: self.prev[k] for k in ("buckets", "store", "ext", "tmp", "hasIndex")})
+                self.trace.append(ev)
         fed_id = self.u.blob_id_of_bytes(info["fed"])
         if info.get("algo") == "xxh3":
             self.u.xxh3_hex(fed_id)
         sop = {"op": "w_commit", "h": h, "fed": fed_id}
-        if info.get("key"):
+        # (decided by where the process IS when it commits: in an interleaved program another
+        # call may have moved it back)
+        elsewhere = bool(st.get("elsewhere") and info.get("rel_open") and not info.get("gone")
+                         and self.cwd.get(fl) == os.path.join(self.dir, "elsewhere-cwd"))
+        if elsewhere:
+            # opened through a relative cache path, committed from another working directory:
+            # everything lands in the cache that path names NOW; this cache only loses the temp file
+            sop["elsewhere"] = True
+        elif info.get("key"):
             st["_owner"] = info["key"]
-        resp = self._hcall(h, {"op": "w_commit"})
+        if resp is None:
+            resp = self._hcall(h, {"op": "w_commit"})
         self.handles.pop(h, None)
+        if elsewhere:
+            ed = os.path.join(self.dir, "elsewhere-cwd")
+            for name in os.listdir(ed):
+                shutil.rmtree(os.path.join(ed, name), ignore_errors=True)
         if resp.get("ok"):
             return sop, resp, {"ok": True, "v": self.u.sri_abs(resp["val"])}
         return sop, resp, None
@@ -963,7 +1042,7 @@ class Session:
         else:
             name = self._opname(lane, "remove_sync", "remove")
         st["_owner"] = st["key"]
-        resp = self.raw_call(lane, {"op": name, "key": self.u.keys[st["key"]]})
+        resp = self.raw_call(lane, {"op": name, "key": self.u.keys[st["key"]], "resets": st.get("resets", 0)})
         sop = {"op": "remove", "key": st["key"]}
         return sop, resp, ({"ok": True, "v": "unit"} if resp.get("ok") else None)
 
@@ -976,7 +1055,7 @@ class Session:
 
     def _do_remove_fully(self, st, lane):
         name = self._opname(lane, "remove_fully_sync", "remove_fully")
-        resp = self.raw_call(lane, {"op": name, "key": self.u.keys[st["key"]]})
+        resp = self.raw_call(lane, {"op": name, "key": self.u.keys[st["key"]], "resets": st.get("resets", 0)})
         sop = {"op": "remove_fully", "key": st["key"]}
         return sop, resp, ({"ok": True, "v": "unit"} if resp.get("ok") else None)
 
@@ -1205,6 +1284,8 @@ def _dec_opts(o):
     o = dict(o)
     if isinstance(o.get("raw"), dict):
         o["raw"] = bytes.fromhex(o["raw"]["hex"])
+    if isinstance(o.get("decoy"), dict):
+        o["decoy"] = _dec_opts(o["decoy"])
     return o
 
 
@@ -1235,6 +1316,18 @@ def _damage(data, st):
         return data[:off] + bytes.fromhex(st["bytes"]) + data[off:]
     if mode == "set":
         return bytes.fromhex(st["bytes"])
+    if mode == "hash_field":
+        # the index-th record line keeps characters [a, b) of its checksum field (+ pad) in front
+        # of the unchanged tab and payload
+        lines = data.split(b"\n")
+        recs = [j for j, l in enumerate(lines) if l.count(b"\t") == 1 and len(l.split(b"\t")[0]) == 64]
+        if not recs:
+            return None
+        j = recs[st["index"] % len(recs)]
+        hx, body = lines[j].split(b"\t")
+        a, b = st["keep"]
+        lines[j] = hx[a:b] + st.get("pad", "").encode() + b"\t" + body
+        return b"\n".join(lines)
     if mode == "glue":
         # bytes glued directly behind the index-th record line (no newline in between)
         lines = data.split(b"\n")
@@ -1339,8 +1432,19 @@ def run_program(sess, prog, on_step=None):
             sess.trace.append({"ev": "env", "op": {"op": "env_raw", "action": act}})
             results.append(None)
             continue
+        if op in ("fs_fill", "fs_free"):
+            # (sessions whose co-processes live on a private small tmpfs, total mode)
+            r = sess.raw_call(st.get("lane", "S"), {"op": op, "dir": os.path.dirname(sess.root), "leave": st.get("leave", 0)})
+            if "died" in r:
+                raise ToolError("driver died in %s" % op)
+            sess.trace.append({"ev": "env", "op": {"op": "env_raw", "action": op}})
+            results.append(None)
+            continue
         if op == "chdir":
-            where = {"ext": sess.extdir, "root": sess.root, "base": os.path.dirname(sess.root), "/": "/"}[st["to"]]
+            elsewhere = os.path.join(sess.dir, "elsewhere-cwd")
+            os.makedirs(elsewhere, exist_ok=True)
+            where = {"ext": sess.extdir, "root": sess.root, "base": os.path.dirname(sess.root), "/": "/",
+                     "elsewhere": elsewhere}[st["to"]]
             r = sess.raw_call(st.get("lane", "S"), {"op": "chdir", "dir": where})
             if not r.get("ok"):
                 raise ToolError("chdir failed in driver: %r" % r)
